@@ -165,7 +165,7 @@ func TestCases(t *testing.T) {
 	}()
 	reps := 1
 	if vutil.Thorough() {
-		reps = 4
+		reps = 10
 	}
 	var mu sync.Mutex // guards out, unreal, stats, perSig
 	unreal := map[string]int{}
